@@ -204,6 +204,18 @@ class Regex(Native):
             return self.rx.split(subj, *rest)
         if name == 'sub' and len(args) >= 2 and isinstance(args[0], (str, bytes)):
             return self.rx.sub(args[0], subj)
+        if name == 'sub' and len(args) == 2 and isinstance(args[0], (FuncRef, NativeMethod, PartialCall)):
+            # a replacement function: called for every match, in order, with the match object; its results are spliced in
+            out, last = [], 0
+            for mo in self.rx.finditer(subj):
+                out.append(subj[last:mo.start()])
+                rep = interp.apply('<replacement>', args[0], [Match(mo)], {}, node, frame)
+                if not isinstance(rep, type(subj)):
+                    raise Unsupported('replacement function of %s.sub returns %r' % (self, rep))
+                out.append(rep)
+                last = mo.end()
+            out.append(subj[last:])
+            return subj[:0].join(out)
         raise Unsupported('regular expression method %s' % name)
 
 
@@ -220,7 +232,7 @@ class Match(Native):
         return NativeMethod(self, name)
 
     def call_method(self, name, args, kwargs, interp, frame, node):
-        if name in ('start', 'end', 'span', 'group', 'groups', 'groupdict') and not kwargs and all(isinstance(a, (int, str)) for a in args):
+        if name in ('start', 'end', 'span', 'group', 'groups', 'groupdict', 'expand') and not kwargs and all(isinstance(a, (int, str)) for a in args):
             try:
                 v = getattr(self.mo, name)(*args)
             except (IndexError, TypeError) as exc:
